@@ -516,14 +516,26 @@ def build_declared(project, plan, interp, side, order_seed=0, start_gates=False)
     return suites, registry
 
 
+def rank_numbering(ranks):
+    """real rank -> natural number with the same order.  The loader gives integers from the decoration counter and, to the
+    variants of a parametrized test, `rank + idx / (idx + 1)` (fix N5): only the ORDER of ranks is ever used by the code; the
+    run-level acceptor works with natural numbers"""
+    order = sorted(set(ranks.values()))
+    return {r: i + 1 for i, r in enumerate(order)}
+
+
 def with_real_ranks(project, ranks):
-    """the project with the ranks the loader really gave (the global decoration counter): what the acceptor must see,
-    since events and report carry them"""
+    """the project with the ranks the loader really gave (order-isomorphic natural numbers of them): what the acceptor must
+    see, since events and report carry them"""
+    num = rank_numbering(ranks)
     p = copy.deepcopy(project)
     for sp, s, _ in G.iter_suites(p):
-        s["rank"] = ranks.get(".".join(sp), s["rank"])
+        if ".".join(sp) in ranks:
+            s["rank"] = num[ranks[".".join(sp)]]
         for t in s["tests"]:
-            t["rank"] = ranks.get(".".join(sp + [t["name"]]), t["rank"])
+            k = ".".join(sp + [t["name"]])
+            if k in ranks:
+                t["rank"] = num[ranks[k]]
     return p
 
 
@@ -531,16 +543,23 @@ def conventional_descriptions(obs):
     """The run-level model names the body step of a test "test <name>" (the description harness/run/build.py gives every
     test).  A declared test has the description its decorators / naming scheme produce — checked against `Expand.loadSuites`
     by `compare_declaration`; for the run-level acceptor that text is replaced by the conventional one, in the fired events
-    and in the report, wherever it is the step description of that very test."""
+    and in the report, wherever it is the step description of that very test.  Likewise the ranks (metadata of the start /
+    skipped / disabled events and of the report nodes) are replaced by `rank_numbering` of them (same order, natural numbers)."""
     decl = obs.get("decl") or {}
     if not decl.get("tree"):
         return obs
     real = {tuple(p): t["desc"] for p, t, _ in D.flat_tests(decl["tree"])}
-    if all(d == "test " + p[-1] for p, d in real.items()):
-        return obs
+    num = rank_numbering(decl.get("ranks") or {})
     out = dict(obs)
 
+    def fix_md(md):
+        if md is not None and md.get("rank") in num:
+            return dict(md, rank=num[md["rank"]])
+        return md
+
     def fix_event(e):
+        if "md" in e:
+            e = dict(e, md=fix_md(e["md"]))
         loc = e.get("loc")
         if not loc or loc.get("k") != "test":
             return e
@@ -562,8 +581,8 @@ def conventional_descriptions(obs):
             res = t["res"]
             if res is not None and d is not None:
                 res = dict(res, steps=[dict(st, desc="test " + t["md"]["name"]) if st["desc"] == d else st for st in res["steps"]])
-            tests.append(dict(t, res=res))
-        return dict(s, tests=tests, suites=[fix_suite(x, p) for x in s["suites"]])
+            tests.append(dict(t, md=fix_md(t["md"]), res=res))
+        return dict(s, md=fix_md(s["md"]), tests=tests, suites=[fix_suite(x, p) for x in s["suites"]])
     if obs.get("report"):
         out["report"] = dict(obs["report"], suites=[fix_suite(x, ()) for x in obs["report"]["suites"]])
     return out
